@@ -394,7 +394,8 @@ func main() {
 			im.Exec("close")
 			replica.VerifDropHoles()
 		}
-		old := normalize(observe(pre))
+		rawOld := observe(pre)
+		old := normalize(rawOld)
 		clean := copyDir(pre)
 		trace, vout, _ := straceVictim(clean, j.op, "")
 		calls := opCalls(trace, clean)
@@ -406,6 +407,9 @@ func main() {
 		var texts []string
 		for _, c := range calls {
 			texts = append(texts, c.text)
+		}
+		if os.Getenv("VERIF_TRACE") != "" {
+			fmt.Fprintf(os.Stderr, "TRACE pre=%s op=%s -> %s\n  %s\n", j.pre.name, j.op, opRes, strings.Join(texts, "\n  "))
 		}
 		if len(res.Samples) < 2 {
 			res.Samples = append(res.Samples, append([]string{"pre=" + j.pre.name + " op=" + j.op + " -> " + opRes}, texts...))
@@ -424,6 +428,17 @@ func main() {
 			os.WriteFile(path, []byte(body), 0644)
 			res.Violations = append(res.Violations, violation{Replay: path, Request: strings.Fields(j.op)[0] + ":" + kind, Found: true})
 			res.Mismatches = append(res.Mismatches, fmt.Sprintf("pre=%s op=%q point=%d: %s", j.pre.name, j.op, point, kind))
+		}
+		// the call sequence of the chain-changing operations is the one the Lean crash model
+		// (Model/Crash.lean, theorems c08_snapshot / c08_remove) is about
+		if line, ok := crashModelLine(rawOld, j.op); ok && opRes == "ok" {
+			if exp, ok := crashModelCalls(line); ok {
+				if exp != strings.Join(texts, ";") {
+					fail("the file-system calls of the operation are not the sequence of the crash model",
+						"implementation:\n  "+strings.Join(texts, "\n  ")+"\n--- model ("+line+"):\n  "+strings.ReplaceAll(exp, ";", "\n  "), -1)
+				}
+				res.Features["crash-model-trace-tie"]++
+			}
 		}
 		// the state a completed operation must leave behind, according to the Lean replica model
 		if exp, ok := modelExpect(j.pre.lines, j.prep, j.op); ok {
@@ -529,6 +544,79 @@ func main() {
 
 // modelExpect runs pre-state, preparation and the operation through the Lean replica model and
 // returns what a reopen must show (metadata line and full volume).
+// crashModelLine builds the request of `drv crash` for an operation on the observed pre-state.
+func crashModelLine(obs, op string) (string, bool) {
+	var names []string
+	head := -1
+	for _, f := range strings.Fields(strings.SplitN(obs, "\n", 2)[0]) {
+		if strings.HasPrefix(f, "chain=") {
+			for _, n := range strings.Split(strings.TrimPrefix(f, "chain="), ",") {
+				if n != "" {
+					names = append(names, "volume-snap-"+n+".img")
+				}
+			}
+		}
+		if strings.HasPrefix(f, "head=") {
+			fmt.Sscanf(strings.TrimPrefix(f, "head="), "%d", &head)
+		}
+	}
+	if head < 0 {
+		return "", false
+	}
+	headFile := fmt.Sprintf("volume-head-%03d.img", head)
+	dash := func(s string) string {
+		if s == "" {
+			return "-"
+		}
+		return s
+	}
+	w := strings.Fields(op)
+	switch w[0] {
+	case "snap":
+		parent := ""
+		if len(names) > 0 {
+			parent = names[len(names)-1]
+		}
+		return fmt.Sprintf("snapshot %s volume-head-%03d.img volume-snap-%s.img %s", headFile, head+1, w[1], dash(parent)), true
+	case "revert":
+		target := "volume-snap-" + w[1] + ".img"
+		for _, n := range names {
+			if n == target {
+				return fmt.Sprintf("revert %s volume-head-%03d.img %s", headFile, head+1, target), true
+			}
+		}
+	case "rm":
+		target := "volume-snap-" + w[1] + ".img"
+		for k, n := range names {
+			if n != target || k == 0 {
+				continue
+			}
+			child := headFile
+			if k+1 < len(names) {
+				child = names[k+1]
+			}
+			grand := ""
+			if k >= 2 {
+				grand = names[k-2]
+			}
+			return fmt.Sprintf("remove %s %s %s %s", target, child, names[k-1], dash(grand)), true
+		}
+	}
+	return "", false
+}
+
+func crashModelCalls(line string) (string, bool) {
+	cmd := exec.Command(*drv, "crash")
+	cmd.Stdin = strings.NewReader(line + "\n")
+	var out bytes.Buffer
+	cmd.Stdout = &out
+	if err := cmd.Run(); err != nil {
+		return "", false
+	}
+	o := strings.TrimSpace(out.String())
+	return o, o != "" && o != "bad-op"
+}
+
 func modelExpect(pre, prep []string, op string) (string, bool) {
 	lines := append(append(append([]string{}, pre...), prep...), op)
 	if op == "close" {
